@@ -344,16 +344,16 @@ def subtraj_per_cases(chk, rng, n_cases):
                 us = boundary_us(prio_now, rng, b)
                 stub = StubRng()
                 stub.uniforms = [float(u) for u in us]
-                stored_before = [frac(x) for x in buf.priority.priority]
+                stored_before = np.array(buf.priority.priority, copy=True)      # whole array, bytes (the tail beyond the filled region is uninitialised)
                 okc, batch = chk.impl_call("C08:subtraj_per:sample-raised", {"capacity": cap, "horizon": H, "ops": case_ops + [["sample", [str(u) for u in us], h]]},
                                            buf.sample_batch, b, h, True, stub)
                 if not okc:
                     break
-                if [frac(x) for x in buf.priority.priority] != stored_before:
+                if np.asarray(buf.priority.priority).tobytes() != stored_before.tobytes():
                     chk.fail("C08:subtraj_per:sample-frame", "sampling changed stored priorities: entries that were masked out at the time of a draw lose the "
                              "priority they were given when added, so later draws are not proportional over the valid entries",
                              {"capacity": cap, "horizon": H, "ops": case_ops + [["sample", [str(u) for u in us], h]],
-                              "before": [str(x) for x in stored_before], "after": [str(frac(x)) for x in buf.priority.priority]})
+                              "before": [float(x) for x in stored_before[:n]], "after": [float(x) for x in buf.priority.priority[:n]]})
                 obs = np.asarray(batch.observation).reshape(b, h)
                 # spec oracle: start index is enabled, in the filled region, in its interval
                 cs, acc = [], F(0)
